@@ -80,7 +80,9 @@ class C01(Prop):
         "onProtected_registrationComplete", "C01_step_registration_complete", "onRegistrationRequest_ok",
         "C01_step_registration_request", "onProtected_securityModeComplete", "C01_step_security_mode_complete",
         "run_clean_step", "C01_registration_script_accepted", "C01_subscriber_identified", "secCapVal_shape",
-        "registrationRequest_short", "C01_registration_accepted_for_config", "vector_resStar_length", "C01_keys_in_step", "C01_accepted_partial", "C01_accepted_for_downlink", "C01_keys_of_network_challenge",
+        "registrationRequest_short", "C01_registration_accepted_for_config", "vector_resStar_length", "C01_keys_in_step", "C01_accepted_partial", "C01_accepted_for_downlink", "C01_keys_of_network_challenge", "C01_accepted",
+        "C01_registration_block", "C01_register_one", "C01_register_loop", "C01_accepted_n_for_downlink", "C01_dlReads_of_spec",
+        "C01_accepted_n",
         "C01_accepted_witness",
     ]] + ["Stgutg.Proofs.Emulator." + t for t in ["protected_step", "receiveUl_of_receive", "amf_sees_built_pdu", "patchSchema_eq"]] + [
         "Stgutg.Proofs.BuildersPath." + t for t in ["inRange_ngSetupRequest", "inRange_initialUEMessage",
@@ -91,7 +93,9 @@ class C01(Prop):
                                                      "initialContextSetupResponse_wire", "parse_header"]] + [
         "Stgutg.Proofs.EmulatorSubscriber." + t for t in ["subscriberOf_eq", "suci_of_created_ue_short", "parse_length"]] + [
         "Stgutg.Proofs.EmulatorRun." + t for t in ["manageNGSetup_run", "protect_ok", "registerUE_run", "emulate_run"]] + [
-        "Stgutg.Proofs.EmulatorReencode.reenc_smc", "Stgutg.Proofs.EmulatorReencode.reenc_rc"]
+        "Stgutg.Proofs.EmulatorReencode.reenc_smc", "Stgutg.Proofs.EmulatorReencode.reenc_rc"] + [
+        "Stgutg.Proofs.EmulatorDownlink." + t for t in ["ngap_roundtrip", "dnt_roundtrip", "ngsr_roundtrip", "icsReq_roundtrip",
+                                                       "ar_decodes", "dnt_getNasPdu", "dl_some"]]
     domains = [Domain("convo-reg", 14, 80, tags="verif")]
     rule = ("convo-reg: whole NG Setup + registration conversations of the emulator in test mode against the scripted AMF of "
             "harness/peer (real NGAP/NAS built with free5gclib) over a SOCK_SEQPACKET socketpair: (proc) the procedures of package "
